@@ -229,18 +229,13 @@ func (c *Ctx) extraOp(m modeling.Mesh) *modeling.Mesh {
 			c.rawSetter("CopyFloat4Attribute:self", true, func() modeling.Mesh { return m.CopyFloat4Attribute(m, modeling.ColorAttribute) })
 		}
 	case 5, 6: // SliceByPlaneWithAttribute (both halves) and the transformer
-		// FINDING reported (notes/C02.md): slice_by_plane.go:41 discards the RequireTopology error, so a quad / line
-		// mesh comes back with 3k indices under its own topology. Until that is fixed or listed, slice triangle meshes only.
-		if m.Topology() != modeling.TriangleTopology {
-			c.Note("extra-skipped:SliceByPlane:non-triangle(finding)")
-			return nil
-		}
+		// since /repo dbd042b non-triangle meshes and missing attributes are rejected (require-panic / error)
 		attr := c.pickV3Attr(m)
 		if !m.HasFloat3Attribute(attr) && c.Rng.Intn(2) == 0 {
 			attr = modeling.PositionAttribute
 		}
 		plane := geometry.NewPlaneFromPoints(c.smallV3().Scale(0.5), c.smallV3().Add(vector3.New(0.5, 0., 0.)), c.smallV3().Add(vector3.New(0., 0., 0.5)))
-		if c.Rng.Intn(2) == 0 && m.HasFloat3Attribute(attr) {
+		if c.Rng.Intn(2) == 0 {
 			return checked("SliceByPlaneWithAttribute", func() []modeling.Mesh {
 				a, b := meshops.SliceByPlaneWithAttribute(m, plane, attr)
 				return []modeling.Mesh{a, b}
